@@ -22,8 +22,8 @@ Proof.
   - unfold py_mod, py_floor. nunf. qb; try lra; (eexists; split; [reflexivity|]; cbn [is_ok toQ]; split; [reflexivity|]; floor_facts; try lra; try nra).
 Qed.
 
-Ltac injn := unfold Z.sub in *; repeat rewrite inject_Z_plus in *; repeat rewrite inject_Z_opp in *.
-Ltac okleaf := eexists; split; [reflexivity|]; cbn [is_ok toQ is_int andb]; split; [reflexivity|]; floor_facts; injn; repeat split; intros; try discriminate; try lra; try nra.
+Ltac injn := unfold Z.sub in *; repeat (rewrite inject_Z_mult in * || rewrite inject_Z_plus in * || rewrite inject_Z_opp in *).
+Ltac okleaf := eexists; split; [reflexivity|]; cbn [is_ok toQ is_int andb]; split; [reflexivity|]; injn; floor_facts; injn; repeat split; intros; try discriminate; try lra; try nra.
 
 (* wrap: inside [lo, hi]; strictly below hi unless all three arguments are ints *)
 Lemma wrap_int_range x lo hi : (lo <= hi)%Z ->
@@ -80,4 +80,87 @@ Proof.
   - mixed py_fold.
   - mixed py_fold.
   - mixed py_fold.
+Qed.
+
+(* round / roundup / trunc: the result is a float, a multiple of the quantum, on the stated side *)
+Lemma inj_Qc (z : Z) : inject_Z z == inject_Z z. Proof. reflexivity. Qed.
+
+Lemma round_int x q : (0 < q)%Z ->
+  exists k : Z, py_round (I x) (I q) = F (inject_Z (k * q)) /\ (2 * (k * q) - q <= 2 * x < 2 * (k * q) + q)%Z.
+Proof.
+  intros Hq. unfold py_round. cbn [is_int andb].
+  unfold neqb, cmp2. cbn [toQ]. destruct (Qeq_bool_spec (inject_Z q) (inject_Z 0)) as [E|E].
+  { rewrite inject_Z_injective in E. lia. }
+  unfold nfloordiv. cbn [lift2 nadd]. replace (2 =? 0)%Z with false by reflexivity.
+  rewrite py_div_pos by exact Hq. cbn [nmul lift2 pfloat].
+  exists ((x + q / 2) / q)%Z. split; [reflexivity|].
+  Z.to_euclidean_division_equations; nia.
+Qed.
+Lemma roundup_int x q : (0 < q)%Z ->
+  exists k : Z, py_roundup (I x) (I q) = F (inject_Z (k * q)) /\ (x <= k * q < x + q)%Z.
+Proof.
+  intros Hq. unfold py_roundup. cbn [is_int andb].
+  unfold neqb, cmp2. cbn [toQ]. destruct (Qeq_bool_spec (inject_Z q) (inject_Z 0)) as [E|E].
+  { rewrite inject_Z_injective in E. lia. }
+  cbn [lift2 nadd nsub]. rewrite py_div_pos by exact Hq. cbn [nmul lift2 pfloat].
+  exists ((x + q - 1) / q)%Z. split; [reflexivity|].
+  Z.to_euclidean_division_equations; nia.
+Qed.
+Lemma trunc_int x q : (0 < q)%Z ->
+  exists k : Z, py_trunc (I x) (I q) = F (inject_Z (k * q)) /\ (k * q <= x < k * q + q)%Z.
+Proof.
+  intros Hq. unfold py_trunc. cbn [is_int andb].
+  unfold neqb, cmp2. cbn [toQ]. destruct (Qeq_bool_spec (inject_Z q) (inject_Z 0)) as [E|E].
+  { rewrite inject_Z_injective in E. lia. }
+  rewrite py_div_pos by exact Hq. cbn [nmul lift2 pfloat].
+  exists (x / q)%Z. split; [reflexivity|].
+  Z.to_euclidean_division_equations; nia.
+Qed.
+
+Ltac z2q H := rewrite Zle_Qle in H || rewrite Zlt_Qlt in H.
+Ltac okmleaf := eexists; split; [reflexivity|]; cbn [is_ok toQ is_int andb]; injn;
+  split; [eexists; reflexivity|]; div_facts; injn; repeat split; intros; try discriminate; try lra; try nra.
+Ltac mixedm f := unfold f, py_floor, py_ceil; cbn [is_int andb]; nunf; qb; injn; try lra; okmleaf.
+
+Lemma round_general x q : is_ok x = true -> is_ok q = true -> 0 < toQ q ->
+  exists r, py_round x q = F r /\ multiple_of r (toQ q) /\ 2 * r - toQ q <= 2 * toQ x /\ 2 * toQ x < 2 * r + toQ q.
+Proof.
+  intros Hx Hq H. destruct x as [x|x|], q as [q|q|]; try discriminate; cbn [toQ] in *.
+  - destruct (round_int x q (inj_pos _ H)) as [k [E [B1 B2]]]. rewrite E. eexists; split; [reflexivity|].
+    split. { exists k. rewrite inject_Z_mult. reflexivity. }
+    z2q B1. z2q B2. injn. change (inject_Z 2) with 2 in *. split; lra.
+  - mixedm py_round.
+  - mixedm py_round.
+  - mixedm py_round.
+Qed.
+Lemma roundup_general x q : is_ok x = true -> is_ok q = true -> 0 < toQ q ->
+  exists r, py_roundup x q = F r /\ multiple_of r (toQ q) /\ toQ x <= r /\ r < toQ x + toQ q.
+Proof.
+  intros Hx Hq H. destruct x as [x|x|], q as [q|q|]; try discriminate; cbn [toQ] in *.
+  - destruct (roundup_int x q (inj_pos _ H)) as [k [E [B1 B2]]]. rewrite E. eexists; split; [reflexivity|].
+    split. { exists k. rewrite inject_Z_mult. reflexivity. }
+    z2q B1. z2q B2. injn. split; lra.
+  - mixedm py_roundup.
+  - mixedm py_roundup.
+  - mixedm py_roundup.
+Qed.
+Lemma trunc_general x q : is_ok x = true -> is_ok q = true -> 0 < toQ q ->
+  exists r, py_trunc x q = F r /\ multiple_of r (toQ q) /\ r <= toQ x /\ toQ x < r + toQ q.
+Proof.
+  intros Hx Hq H. destruct x as [x|x|], q as [q|q|]; try discriminate; cbn [toQ] in *.
+  - destruct (trunc_int x q (inj_pos _ H)) as [k [E [B1 B2]]]. rewrite E. eexists; split; [reflexivity|].
+    split. { exists k. rewrite inject_Z_mult. reflexivity. }
+    z2q B1. z2q B2. injn. split; lra.
+  - mixedm py_trunc.
+  - mixedm py_trunc.
+  - mixedm py_trunc.
+Qed.
+
+(* clip is idempotent for every mix of argument types (and any order of the bounds) *)
+Lemma clip_idem_general x lo hi : is_ok x = true -> is_ok lo = true -> is_ok hi = true ->
+  py_clip (py_clip x lo hi) lo hi = py_clip x lo hi.
+Proof.
+  intros Hx Hlo Hhi.
+  destruct x as [x|x|], lo as [lo|lo|], hi as [hi|hi|]; try discriminate;
+    unfold py_clip, py_max, py_min; nunf; qb; try reflexivity; try lra.
 Qed.
